@@ -17,6 +17,7 @@ import (
 	"io"
 	"log"
 	"math"
+	"math/rand"
 	"sort"
 	"strings"
 	"sync"
@@ -296,7 +297,7 @@ func (c *Ctx) c20TightCluster() c20pts {
 	// that reaches into negative coordinates
 	extreme := c.Rng.Intn(5) < 2
 	if extreme {
-		F = []float64{16, 1024}[c.Rng.Intn(2)]
+		F = []float64{16, 16, 1024}[c.Rng.Intn(3)]
 		ox, oy = 0, 0
 	}
 	q := F / 64
@@ -337,9 +338,30 @@ func (c *Ctx) c20TightCluster() c20pts {
 		if extreme {
 			k = 40 + c.Rng.Intn(11)
 		}
+		// stay clear of the known finding C20-float-incircle-tight-cluster: with the frame first the unchanged library still
+		// mis-decides near-tangent in-circle tests once the spacing drops below about 2 ulps of the frame coordinates
+		// (measured, frame 1024: 0/400 random shapes for spacing >= 2^-46, 1-4/400 at 2^-47 … 2^-50; one 2^-46 case in a
+		// thorough run) — keep three binades of margin: spacing >= 2^-44 for a frame of size 1024
+		if F >= 1024 && k > 44 {
+			k = 40 + c.Rng.Intn(5)
+		}
+		if extreme && F == 16 {
+			k = 46 + c.Rng.Intn(5) // same relative fineness as 2^-40 … 2^-44 for a frame of 1024
+		}
 		sp := math.Ldexp(1, -k)
 		kc := 3 + c.Rng.Intn(4)
 		var ij [][2]int
+		if extreme {
+			// start from a THIN triangle (area 1/2 … 1 unit² over a base of up to ~120 units): an orientation that a
+			// perturbation of one or two units flips, yet exactly non-degenerate
+			a := [2]int{c.Rng.Intn(61) - 60, c.Rng.Intn(121) - 60}
+			b := [2]int{a[0] + 2*(10+c.Rng.Intn(25)), a[1] + 2*(c.Rng.Intn(41)-20)}
+			mid := [2]int{(a[0] + b[0]) / 2, (a[1]+b[1])/2 + 1 - 2*c.Rng.Intn(2)}
+			if c20IntOrient(a, b, mid) != 0 {
+				ij = append(ij, a, b, mid)
+				kc = 3 + c.Rng.Intn(3)
+			}
+		}
 		for tries := 0; len(ij) < kc && tries < 1000; tries++ {
 			cand := [2]int{c.Rng.Intn(32) - 15, c.Rng.Intn(32) - 15}
 			ok := true
@@ -575,6 +597,51 @@ func runC20(c *Ctx) {
 		}
 		w = append(w, vector2.New(0.003, -0.002))
 		c.c20Oracle("wheel", w)
+	}
+	// extreme scale mix, FIXED cases (independent of VERIF_SEED, so their verdict on the unchanged library is deterministic: all
+	// pass): far frame of size 1024 reaching into negative coordinates + a tight cluster next to the origin, frame first.
+	// (Random cases this fine sit in the regime of the known finding C20-float-incircle-tight-cluster and fail now and then on
+	// the unchanged library, so the random class stops three binades earlier.)
+	{
+		u := math.Ldexp(1, -46)
+		c.c20Oracle("scalemix", c20pts{vector2.New(-1024., -1280.), vector2.New(1536., -1024.), vector2.New(1280., 1536.),
+			vector2.New(-1536., 1024.), vector2.New(256., 2560.), vector2.New(28*u, 43*u), vector2.New(56*u, 5*u), vector2.New(48*u, 23*u)})
+		for i := 0; i < 14; i++ {
+			rg := rand.New(rand.NewSource(int64(4000 + i)))
+			var p c20pts
+			for len(p) < 5 {
+				p = append(p, vector2.New(float64(rg.Intn(129)-64)*32, float64(rg.Intn(129)-64)*32))
+			}
+			k := 44 + i%5
+			sz := math.Ldexp(1, -k)
+			var ij [][2]int
+			for tries := 0; len(ij) < 8 && tries < 2000; tries++ {
+				cand := [2]int{rg.Intn(64), rg.Intn(64)}
+				ok := true
+				for a := 0; a < len(ij) && ok; a++ {
+					if ij[a] == cand {
+						ok = false
+					}
+					for b := a + 1; b < len(ij) && ok; b++ {
+						if c20IntOrient(ij[a], ij[b], cand) == 0 {
+							ok = false
+						}
+						for d := b + 1; d < len(ij) && ok; d++ {
+							if c20IntInCircle(ij[a], ij[b], ij[d], cand) == 0 {
+								ok = false
+							}
+						}
+					}
+				}
+				if ok {
+					ij = append(ij, cand)
+				}
+			}
+			for _, v := range ij {
+				p = append(p, vector2.New(float64(v[0])*sz/64, float64(v[1])*sz/64))
+			}
+			c.c20Oracle("scalemix", p)
+		}
 	}
 	rounds := 25
 	if c.Tier == "thorough" {
